@@ -15,6 +15,7 @@ func runC01(r *Run) {
 	if !r.Thorough() {
 		specs = append(specs,
 			Spec{Name: "arr-small-T256-L5", Kind: "arr-small", T: 256, L: 5, Classes: []string{"t", "mid", "limA", "limA+"}, Oracles: or},
+			Spec{Name: "arr-nested-T256-L4", Kind: "arr-small", T: 256, L: 4, Classes: []string{"t", "limA", "A", "M:t", "s:A:t"}, Oracles: or},
 		)
 	} else {
 		specs = append(specs,
@@ -22,4 +23,29 @@ func runC01(r *Run) {
 		)
 	}
 	r.ExploreSpecs(specs)
+	// trajectories: multi-level trees, depth-bounded neighbourhoods of every trajectory state
+	tor := []string{"sem", "oob", "reopen"}
+	cls := []string{"t", "limA"}
+	var ts []Spec
+	if !r.Thorough() {
+		for _, sc := range []string{"arr-append-lim", "arr-front-mid", "arr-mixed"} {
+			ts = append(ts, TrajSpecs(r.ID, sc, 70, 1, 71, 3, 1, 256, cls, tor)...)
+			ts = append(ts, TrajSpecs(r.ID, sc, 70, 2, 14, 4, 2, 256, cls, tor)...)
+		}
+		for _, sc := range []string{"arr-drain-front", "arr-drain-back", "arr-drain-mid", "arr-shrink-overwrite"} {
+			ts = append(ts, TrajSpecs(r.ID, sc, 120, 61, 121, 3, 1, 256, cls, tor)...)
+		}
+	} else {
+		for _, T := range []uint32{256, 512} {
+			for _, sc := range []string{"arr-append-lim", "arr-front-mid", "arr-mixed"} {
+				ts = append(ts, TrajSpecs(r.ID, sc, 100, 1, 101, 1, 1, T, []string{"t", "mid", "limA", "limA+"}, tor)...)
+				ts = append(ts, TrajSpecs(r.ID, sc, 100, 2, 24, 2, 2, T, cls, tor)...)
+			}
+			for _, sc := range []string{"arr-drain-front", "arr-drain-back", "arr-drain-mid", "arr-shrink-overwrite"} {
+				ts = append(ts, TrajSpecs(r.ID, sc, 160, 81, 161, 1, 1, T, []string{"t", "mid", "limA", "limA+"}, tor)...)
+				ts = append(ts, TrajSpecs(r.ID, sc, 160, 140, 161, 3, 2, T, cls, tor)...)
+			}
+		}
+	}
+	r.ExploreSpecs(ts)
 }
